@@ -1,4 +1,10 @@
+import os, sys
+sys.path.insert(0, os.path.dirname(os.path.dirname(os.path.abspath(__file__))))
+from srcgen import regen_src
+from srcreplay import replay_src  # translated transport layer run in Coq on the streams the real client was served
 PROP = {
+    "pre": [regen_src],
+    "extra": [replay_src({'cutcc'}, per_scn=120)],
     "coq": ["C13", "C13b", "C13c"],
     "exhaustive": False,
     "rule": "Every cut offset 0..len x {peer closes, peer resets, peer stalls until the deadline}: (a) real per-connection server "
